@@ -412,6 +412,11 @@ def order_corpus():
               req(b"/a", GET, (0, 1)), req(b"/a", HEAD, (100, 200)), req(b"/nope", HEAD), req(b"/nope", GET, (0, 1)), req(b"/a?x=1")]
     for cache in (False, True):
         cases.append(order_case(pp + [edit(5, 0, 0, key=b"/a", body=b"0123456789", pref=1)], shapes, "corpus-shapes", cache=cache))
+    # a streamed answer (FatResponse::with_future): Present on the body before the stream, no range, never cached, the Post extensions after the stream
+    for cache in (False, True):
+        cases.append(order_case(pp + [edit(5, 0, 0, key=b"/s", body=b"!> hide 1\nS", pref=3), edit(1, 0, 1, payload=prep_pl(b"/t", b"", 3))],
+                                [b"/s", b"/s", req(b"/s", HEAD), req(b"/s", POST), req(b"/s", GET, (1, 2)), req(b"/s", GET, (5, 2)), b"/t", req(b"/t", HEAD)],
+                                "corpus-stream", cache=cache))
     # files of the public directory: their first line is read like a Prepare body; a file extension is taken after the last dot only
     files = [(b"/f.html", b"!> hide a b c &> tmpl\nFILE"), (b"/.hid", b"!> hide\nh"), (b"/zz", b"!> hide\nz"), (b"/x.y.md", b"plain")]
     fe = pp + [edit(6, 0, 0, key=b"tmpl")] + [edit(7, 0, 0, key=k) for k in (b"html", b"hid", b"zz", b"y", b"md")]
@@ -441,7 +446,7 @@ def order_cases(rng, tier):
         prios = rng.choice([small, small, small, [I32_MIN, I32_MIN + 1, 0], [16777216, 16777215, 128, 10, -100, -1327]])
         cache = rng.random() < 0.4
         files = rand_files(rng) if rng.random() < 0.3 else None
-        edits = [rand_edit(rng, prios, ov, prefs=(0, 1, 1, 2) if cache else (0,)) for _ in range(n)]
+        edits = [rand_edit(rng, prios, ov, prefs=(0, 1, 1, 2, 3) if cache else (0, 0, 0, 3)) for _ in range(n)]
         paths = rng.sample(PATHS, 2) if cache else PATHS
         reqs = [rand_req(rng, paths) for _ in range(rng.randrange(1, 6 if cache else 4))]
         cases.append(order_case(edits, reqs, "order-random", cache=cache, files=files))
@@ -482,9 +487,9 @@ def order_cases(rng, tier):
         edits = []
         for pg in pages:
             if rng.random() < 0.7:
-                edits.append(edit(5, 0, 0, key=pg, body=rand_body(rng), pref=rng.choice([0, 1, 1, 1, 2])))
+                edits.append(edit(5, 0, 0, key=pg, body=rand_body(rng), pref=rng.choice([0, 1, 1, 1, 2, 3])))
         if rng.random() < 0.5:
-            edits.append(edit(1, rng.choice([0, 1]), rng.choice(small), payload=prep_pl(rng.choice([b"/", pages[0]]), rand_body(rng), rng.choice([0, 1, 2]))))
+            edits.append(edit(1, rng.choice([0, 1]), rng.choice(small), payload=prep_pl(rng.choice([b"/", pages[0]]), rand_body(rng), rng.choice([0, 1, 2, 3]))))
         if rng.random() < 0.3:
             edits.append(edit(0, 0, rng.choice(small), payload=prime_pl(pages[0], rng.choice([pages[1], b"/./ov1"]))))
             edits.append(edit(5, 0, 0, key=b"/./ov1", body=rand_body(rng), pref=rng.choice([1, 2])))
@@ -814,7 +819,7 @@ def directed(rng, mismatches):
     cases += order_corpus()
     for _ in range(1500):
         cache = rng.random() < 0.5
-        edits = [rand_edit(rng, [-1, 0, 1, 2], b"/./ov1", prefs=(0, 1, 2) if cache else (0,)) for _ in range(rng.randrange(1, 10))]
+        edits = [rand_edit(rng, [-1, 0, 1, 2], b"/./ov1", prefs=(0, 1, 2, 3) if cache else (0, 3)) for _ in range(rng.randrange(1, 10))]
         cases.append(order_case(edits, [rand_req(rng, PATHS[:3]) for _ in range(3)], "directed", cache=cache))
     return cases
 
@@ -885,7 +890,7 @@ THEOREMS = [
     ('package_post_every_response',
      'forall (h : hostcfg) (c : cache) (r : creq), exists status body prep pres, fst (serve present_parse h c r) = (Ok (status, body), snd (resolve_prime (b_prime (h_b h)) (q_uri r, None)) ++ prep ++ pres ++ map (fun e => EPackage (fst e)) (b_package (h_b h)) ++ map (fun e => EPost (fst e)) (b_post (h_b h))) /\\ Forall is_prepare_event prep /\\ (length prep <= 1)%nat /\\ Forall is_present_event pres'),
     ('cache_hit_skips_prepare_present',
-     'forall (h : hostcfg) (c : cache) (r : creq) (st : bytes * option bytes) (sb : centry), fst (resolve_prime (b_prime (h_b h)) (q_uri r, None)) = st -> cache_hit h c (sanitize r) (q_method r) (key_uri st) = Some sb -> serve present_parse h c r = ((Ok (client_view (q_method r) (apply_range (sanitize r) sb)), snd (resolve_prime (b_prime (h_b h)) (q_uri r, None)) ++ map (fun e => EPackage (fst e)) (b_package (h_b h)) ++ map (fun e => EPost (fst e)) (b_post (h_b h))), c)'),
+     'forall (h : hostcfg) (c : cache) (r : creq) (st : bytes * option bytes) (sb : centry), fst (resolve_prime (b_prime (h_b h)) (q_uri r, None)) = st -> cache_hit h c (sanitize r) (q_method r) (key_uri st) = Some sb -> serve present_parse h c r = ((Ok (respond (q_method r) (sanitize r) 1 sb), snd (resolve_prime (b_prime (h_b h)) (q_uri r, None)) ++ map (fun e => EPackage (fst e)) (b_package (h_b h)) ++ map (fun e => EPost (fst e)) (b_post (h_b h))), c)'),
     ('run_order_after_edits',
      'forall (parse : bytes -> outcome (option parsed)) (es : list pedit) (o : hostopts) (rs : list creq), run_scenario model_step parse es o rs = run_scenario ref_step parse es o rs /\\ pc_desc (pconfig_build ref_step es)'),
     ('spec_all_once_desc_is',
@@ -899,7 +904,7 @@ THEOREMS = [
     ('spec_present_is',
      "forall (line : bytes -> option parsed) (b : behaviours) (uri body body' : bytes) (tr : list event), present_spec line b uri body body' tr <-> exists ps, StronglySorted (fun a c => (c < a)%Z) ps /\\ (forall p, In p ps <-> exists pred, ref_get (b_present_fn b) p = Some pred /\\ pred uri = true) /\\ tr = map EPresentFn ps ++ (match path_extension (uri_path uri) with | Some e => if bmem e (b_present_file b) then [EPresentFile e] else [] | None => [] end) ++ map (fun e => EPresentInternal (fst e) (snd e)) (filter (fun e => bmem (fst e) (b_present_internal b)) (match line body with Some p => p_entries p | None => [] end)) /\\ body' = match line body with Some p => p_body p | None => body end"),
     ('spec_serve_is',
-     "forall (line : bytes -> option parsed) (h : hostcfg) (c : cache) (r : creq) (out : (outcome (N * bytes) * list event) * cache), serve_spec line h c r out <-> exists tr1 st pk po, prime_spec (h_b h) (q_uri r, None) tr1 st /\\ stage_spec EPackage (b_package (h_b h)) pk /\\ stage_spec EPost (b_post (h_b h)) po /\\ match cache_hit h c (sanitize r) (q_method r) (key_uri st) with | Some sb => out = ((Ok (client_view (q_method r) (apply_range (sanitize r) sb)), tr1 ++ pk ++ po), c) | None => exists status body pref tr2 body' tr3, match sanitize r with | SanOk _ => exists resp, prepare_spec (h_b h) st resp tr2 /\\ (status, body, pref) = response_of h (q_method r) (fst st) resp | SanUnsafe => (status, body, pref) = (400, [], 1) /\\ tr2 = [] | SanRange => (status, body, pref) = (416, [], 1) /\\ tr2 = [] end /\\ present_spec line (h_b h) (fst st) body body' tr3 /\\ out = ((Ok (client_view (q_method r) (apply_range (sanitize r) (status, body'))), tr1 ++ tr2 ++ tr3 ++ pk ++ po), cache_store h c (q_method r) (key_uri st) pref status body') end"),
+     "forall (line : bytes -> option parsed) (h : hostcfg) (c : cache) (r : creq) (out : (outcome (N * bytes) * list event) * cache), serve_spec line h c r out <-> exists tr1 st pk po, prime_spec (h_b h) (q_uri r, None) tr1 st /\\ stage_spec EPackage (b_package (h_b h)) pk /\\ stage_spec EPost (b_post (h_b h)) po /\\ match cache_hit h c (sanitize r) (q_method r) (key_uri st) with | Some sb => out = ((Ok (respond (q_method r) (sanitize r) 1 sb), tr1 ++ pk ++ po), c) | None => exists status body pref tr2 body' tr3, match sanitize r with | SanOk _ => exists resp, prepare_spec (h_b h) st resp tr2 /\\ (status, body, pref) = response_of h (q_method r) (fst st) resp | SanUnsafe => (status, body, pref) = (400, [], 1) /\\ tr2 = [] | SanRange => (status, body, pref) = (416, [], 1) /\\ tr2 = [] end /\\ present_spec line (h_b h) (fst st) body body' tr3 /\\ out = ((Ok (respond (q_method r) (sanitize r) pref (status, body')), tr1 ++ tr2 ++ tr3 ++ pk ++ po), cache_store h c (q_method r) (key_uri st) pref status body') end"),
     ('run_order_meets_spec',
      'forall (h : hostcfg) (c : cache) (r : creq), host_desc (h_b h) -> serve_spec parsed_line h c r (serve present_parse h c r)'),
     ('run_order_spec_determines',
@@ -921,7 +926,8 @@ RULE = ("Registry: for every history of add / add-with-no_override / remove on e
         "'!> ' line: for every line of the grammar the parser returns the names and arguments in order and data_start is the index just after the LF; "
         "for arbitrary bytes no panic and data_start <= len; reading the arguments from the back gives the reverse, any interleaving of next/next_back "
         "is a deque. Run order: per request — generated or served from the response cache, GET / HEAD / other method, safe or unsafe path, with or "
-        "without a range, answered by a Prepare extension, a file of the public directory or an error page — the trace of marker extensions is Prime* "
+        "without a range, answered by a Prepare extension (also one that streams its body through a future), a file of the public directory or an error "
+        "page — the trace of marker extensions is Prime* "
         "(every one, descending priority, each seeing the URI as the earlier ones left it), then only when the response is generated the path-bound "
         "Prepare (looked up by the path of the override or request URI) or else the first matching predicate-bound one and the Present extensions "
         "(predicate-bound, file-extension, then those of the '!> ' line in line order with exactly their arguments, forwards and reversed), then every "
@@ -972,8 +978,8 @@ LEVEL_TEXT = ("Machine-checked Coq theorems (no axioms) over transcriptions of t
 LEVEL_NOTE = ("Trusted: Coq kernel, extraction (ExtrOcamlBasic) reduced by an in-kernel recheck sample, the hand transcriptions as validated by the "
               "differential run, the declarative specification as a reading of the property. Bounded-exhaustive part of the quantifier as run: quick "
               "every operation sequence up to length 3 over 6 priorities, 4 over 3, 5 over 2 (+12000 sampled up to 8); thorough up to 4 over 6, 6 over 3, "
-              "7 over 2 and 10 % of length 8 over 2 (the theorem covers all lengths and priorities). Not covered: HTTP/2 and push, streaming (future) "
-              "responses, vary variants and 304 revalidation on a cache hit, async interleavings of two requests (extensions are immutable during "
+              "7 over 2 and 10 % of length 8 over 2 (the theorem covers all lengths and priorities). Not covered: HTTP/2 and push, streamed responses with "
+              "a declared length and protocol switches (a future of unknown length is covered), vary variants and 304 revalidation on a cache hit, async interleavings of two requests (extensions are immutable during "
               "serving), Path::extension / sanitize outside the fixture's URI domain. The repaired defects are kept as _v0 refutation witnesses.")
 TECHNIQUE = ("Coq proof (loop invariant for binary search, refinement of the reference map for all histories, parser correctness for all inputs / all "
              "grammar lines, double-ended iterator = deque, pipeline model satisfies a declarative run-order specification that it is proved to "
